@@ -228,6 +228,8 @@ def run_parallel(c, rng, work, recs, jobs, gz, inputs, gz_input=False):
         if got is None:
             c.violation("warc_parallel-output-framing-broken: %s: the output is not a sequence of WARC records (bytes of records interleaved?)" % how, rep)
             return
+    if jobs == 1 and inputs <= 1 and got != recs and collections.Counter(got) == collections.Counter(recs):
+        c.violation("warc_parallel-single-worker-reorders: %s: with one input and one worker the order must be kept (C17_parallel_single_worker_keeps_order)" % how, rep)
     if collections.Counter(got) != collections.Counter(recs):
         miss = collections.Counter(recs) - collections.Counter(got)
         extra = collections.Counter(got) - collections.Counter(recs)
